@@ -30,6 +30,14 @@ CHECKS = {
              "parameter changes / data replacement / rebinning / reads in the bound; each history is executed on a real HistFit, a free-standing HistParametricModel and a smooth companion "
              "(normal + exponential mixture): bin contents, fit.model, eval_model_function_density compared with the spec's exact numbers, the smooth companion with its antiderivative within the textbook error bound of each rule.",
         note="Trusted: TLC, harness/adapters/histmodel.py. Polynomials degree <= 4 with integer coefficients, integer edges (3 edge sequences); tolerance 1e-12 relative (1e-9 for scipy quad)."),
+    "C17": dict(
+        category="model_checking", design_ref="DESIGN.md 4.10, 5/C17",
+        technique="TLA+ spec Format.tla (ScalarFormatter / ParameterFormatter transcribed step by step in decimal integer arithmetic, ties as biases of the binary float) model-checked with TLC against the declarative half-unit statement; ReportView.tla (formatter copies refreshed at print time) model-checked; TLC-generated formatting jobs and report histories replayed on the real formatter and on real fits with parse-back",
+        text="TLC checks Faithful (displayed uncertainty = n-significant-digit rounding, value within half a unit of the uncertainty's last digit, shown down to that digit when |value| >= uncertainty) for every "
+             "mantissa pair of the grid (1..130 / 1..1200 and the neighbourhoods of 950, 995, 9995, 99995: the carry cases) x decimal exponents x 1..4 digits x tie biases, and ShownIsCurrent / FixedMarked for all histories of "
+             "set / fix / release / add error / fit / show. 157k formatting jobs are executed on the real ParameterFormatter (plain, LaTeX, fixed, without uncertainty, unrounded, asymmetric) and parsed back; "
+             "every report(), get_result_dict() and to_file() preface of the histories on five fit types is parsed back and compared with the numbers the fit holds, to half a unit of each number's own last digit.",
+        note="Trusted: TLC, harness/adapters/format.py, harness/adapters/reportview.py. The LaTeX conversion strips trailing mantissa zeros in scientific notation: only the value clauses are checked there."),
     "C02": dict(
         category="model_checking", design_ref="DESIGN.md 4.2, 5/C02",
         technique="TLA+ spec ErrorModel.tla (sources, reference modes, per-source and total caches, model stale flag, pending histogram entries) model-checked with TLC for 6 container kinds; every bounded history replayed on the real containers / parametric models against the spec's exact integer covariance",
